@@ -96,6 +96,8 @@ func (c13) Plan(tier string, seed uint64) []core.Case {
 			}
 		}
 	}
+	// Close of a WebSocket transport while a Send / Receive call on it is between its checks and its helper goroutine
+	cases = append(cases, core.Case{ID: "C13/ws-close-race", Engine: "wscloserace", Seed: seed, Solo: true, TimeoutS: 120})
 	// a few scenarios per case, solo (one scenario at a time in its child)
 	per := 4
 	for i := 0; i < len(scns); i += per {
@@ -112,9 +114,88 @@ func (c13) Plan(tier string, seed uint64) []core.Case {
 	return cases
 }
 
+// wsCloseRace: the hook points ws.send.spawn / ws.recv.spawn hold a Send / Receive call right before it starts its
+// helper goroutine; the transport is closed meanwhile; the call is released. It has to return (an error or not) - the
+// process must survive and the call must not hang.
+func (p c13) wsCloseRace(r *core.Result, c core.Case) {
+	var armed atomic.Value // string: the point to hold once
+	armed.Store("")
+	entered := make(chan struct{}, 1)
+	var release chan struct{}
+	lime.VerifSetPointHandler(func(name string) {
+		if want, _ := armed.Load().(string); want != "" && name == want {
+			armed.Store("")
+			entered <- struct{}{}
+			<-release
+		}
+	})
+	defer lime.VerifSetPointHandler(nil)
+	for round := 0; round < 6; round++ {
+		point := []string{"ws.recv.spawn", "ws.send.spawn"}[round%2]
+		sr, err := rig.StartServer(rig.DefaultServerConfig(), nil, []string{rig.WS}, 0)
+		if err != nil {
+			r.Verdict = core.Inconclusive
+			r.Note = err.Error()
+			return
+		}
+		ctx, cancel := context.WithTimeout(context.Background(), 30*time.Second)
+		t, err := sr.Dial(ctx, rig.WS, 4, nil)
+		if err != nil {
+			cancel()
+			sr.Close(10 * time.Second)
+			r.Verdict = core.Inconclusive
+			r.Note = err.Error()
+			return
+		}
+		release = make(chan struct{})
+		armed.Store(point)
+		done := make(chan error, 1)
+		go func() {
+			if point == "ws.recv.spawn" {
+				_, err := t.Receive(ctx)
+				done <- err
+			} else {
+				done <- t.Send(ctx, &lime.Session{State: lime.SessionStateNew})
+			}
+		}()
+		held := false
+		select {
+		case <-entered:
+			held = true
+		case <-time.After(5 * time.Second):
+			armed.Store("")
+		}
+		r.Evals++
+		r.Count("scenarios", 1)
+		r.Count("ws_close_race_rounds", 1)
+		if held {
+			_ = t.Close()
+			close(release)
+			select {
+			case <-done:
+				r.Count("ws_close_race_returned", 1)
+				r.Count("terminal_observed", 1)
+				r.Count("census_clean", 1)
+			case <-time.After(10 * time.Second):
+				r.Violate("C13/ws-close-race/call-blocked/"+point, "a "+point+" call that was between its checks and its helper goroutine when the transport was closed has not returned 10 s later")
+			}
+		} else {
+			r.Count("ws_close_race_hook_not_reached", 1)
+			_ = t.Close()
+		}
+		cancel()
+		sr.Close(10 * time.Second)
+		r.Fingerprints = append(r.Fingerprints, "wscloserace|"+point)
+	}
+}
+
 func (p c13) Run(c core.Case) core.Result {
 	var r core.Result
 	r.Verdict = core.Held
+	if c.Engine == "wscloserace" {
+		p.wsCloseRace(&r, c)
+		return r
+	}
 	var scns []c13scn
 	remarshal(c.P["scenarios"], &scns)
 	rng := core.NewRng(c.Seed)
